@@ -12,7 +12,7 @@ MANIFEST = dict(
     text="TLC checks SignCache.tla (two goroutines, every interleaving of the cache steps: EmittedValid holds with the mutex, is violated without it - negative control) "
          "and the sequential engine model; concurrent runs of a REAL deputy node (2 block inserters, 2 confirm inserters, a miner thread, a reader thread, the engine's own "
          "background goroutines) are recorded under chainLock and validated by TLC as a sequential history of the C03/C02 monitor; every emitted confirm is checked to be the "
-         "node's own signature over a block it holds; 98 gated two-goroutine schedules are forced on the real SignBlock and 32 free-running goroutines sign 96000 hashes (every result checked); rounds with 5 deputies release the two encodings of ONE deputy's signature as two confirm packets at the same instant (the deputy must count once); rounds in which a whole fork becomes stable at once while peers' confirms for its blocks arrive and the background goroutine writes the node's own (rendezvous through the SignBlock and store write gates); ConfirmStore.tla (SetConfirms as load/append/store, atomic vs. not - negative control) with rounds of concurrent SetConfirms/GetConfirms on the real store; TermLock.tla (Go's writer-preferring RWMutex: a nested read lock deadlocks against a waiting writer - negative control) with 8 goroutines querying the real deputy manager while term 1 is overwritten thousands of times (every answer from one saved version, watchdog for hangs); gated rounds make a mining request queue on chainLock behind an "
+         "node's own signature over a block it holds; 98 gated two-goroutine schedules are forced on the real SignBlock and 32 free-running goroutines sign 96000 hashes (every result checked); rounds with 5 deputies release the two encodings of ONE deputy's signature as two confirm packets at the same instant (the deputy must count once); rounds in which a whole fork becomes stable at once while peers' confirms for its blocks arrive and the background goroutine writes the node's own (rendezvous through the SignBlock and store write gates); ConfirmStore.tla (SetConfirms as load/append/store, atomic vs. not - negative control) with rounds of concurrent SetConfirms/GetConfirms on the real store; TermLock.tla (Go's writer-preferring RWMutex: a nested read lock deadlocks against a waiting writer - negative control) with 8 goroutines querying the real deputy manager while term 1 is overwritten thousands of times (every answer from one saved version, watchdog for hangs); a reader outside chainLock spins on CurrentBlock() while the engine works (every head it sees is the head after one of the calls around the read), incl. rounds in which a confirm packet cuts the head's fork; the confirms the background goroutine stores are published exactly once; gated rounds make a mining request queue on chainLock behind an "
          "InsertBlock that moves the head; FileQueue.tla (store read path vs. background writer and done-notice handler: ReadLatest) is model-checked and every transition of its state graph is "
          "realised on the real store by holding the writer at barrier records; thorough adds Go race-detector builds of the same runs.",
     note="Linearizability is judged on the lock-ordered sequence of engine calls (hook under chainLock, sequence number under the same lock). 'No unsynchronised access' is decided "
